@@ -168,10 +168,8 @@ ROOTS = {
              r"swap_remove_\w+", r"truncate_\w+", "clear", "extend_from_slice", r"fill\w*", "drain", "make_contiguous",
              "get_mut", r"nth_\w+_mut", "front_mut", "back_mut", "as_mut_slices", "iter_mut", "range_mut")
     + IMPL("Extend|IndexMut") + EVERY("Drain", "IterMut"),
-    # everything that moves ownership of elements
-    "C03": M("push_back", "push_front", r"try_push_\w+", r"pop_\w+", "remove", r"swap_remove_\w+", r"truncate_\w+", "clear",
-             "extend_from_slice", r"fill\w*", "drain", "into_iter", "to_vec", "new", "boxed")
-    + IMPL("Extend|FromIterator|From|Clone|Drop|IntoIterator|Default") + EVERY("Drain", "IntoIter"),
+    # ownership can be broken by anything that moves bits around (make_contiguous, swap, remove ...): everything
+    "C03": ALL,
     "C02": M("push_back", "push_front", "try_push_back", "try_push_front"),
     "C05": M("truncate_back", "truncate_front", "clear", "fill", "fill_with", "fill_spare", "extend_from_slice",
              "drain", "into_iter")
